@@ -60,7 +60,7 @@ CONSTANTS
 INVARIANTS GenInv Dump
 CHECK_DEADLOCK FALSE
 """ % instr
-    res = ctx.tlc("EvmGen", cfg_text=cfg, simulate="num=%d" % num, depth=6 * instr + 10,
+    res = ctx.tlc("EvmGen", cfg_text=cfg, simulate="num=%d" % num, depth=12 * instr + 10,
                   extra=["-seed", str(ctx.seed)], workers=4, timeout=900)
     progs = []
     for raw in ctx.tlc_lines(res, "PROG"):
